@@ -193,6 +193,10 @@ func runC18(t *testing.T, tier string) int {
 	for _, v := range sv {
 		sink.add(v)
 	}
+	rn, rv := c18Rest()
+	for _, v := range rv {
+		sink.add(v)
+	}
 	_, fcov, fv := c18AllRequestFields()
 	for _, v := range fv {
 		sink.add(v)
@@ -210,6 +214,7 @@ func runC18(t *testing.T, tier string) int {
 		"exhaustive":                    complete,
 		"match_inputs":                  mi,
 		"interceptor_call_pairs":        sn,
+		"rest_injection_checks":         rn,
 		"explanation":                   "stateless DFS over all interleavings of the real faults.Set code at every lock acquisition, atomic operation and goroutine spawn (sync / sync/atomic routed through scheduler shims by an overlay rewrite), up to the stated preemption bound per scenario (-1 = unbounded); states = scheduling decisions taken, every execution runs the implementation itself",
 	}
 	for k, v := range fcov {
